@@ -56,13 +56,15 @@ func fromCtyValue(val cty.Value, target reflect.Value, path cty.Path) error {
 		return nil
 	}
 
-	// Lists and maps can be nil without indirection, but everything else
-	// requires a pointer and we set it immediately to nil.
+	// Lists and maps can be nil without indirection when the target is a
+	// slice or a map, but everything else (including a list decoded into a
+	// pointer to an array) requires a pointer and we set it immediately to nil.
 	// We also make an exception for capsule types because we want to handle
 	// pointers specially for these.
 	// (fromCtyList and fromCtyMap must therefore deal with val.IsNull, while
 	// other types can assume no nulls after this point.)
-	if val.IsNull() && !val.Type().IsListType() && !val.Type().IsMapType() && !val.Type().IsCapsuleType() {
+	nilableTarget := deepTarget.Kind() == reflect.Slice || deepTarget.Kind() == reflect.Map
+	if val.IsNull() && !((val.Type().IsListType() || val.Type().IsMapType()) && nilableTarget) && !val.Type().IsCapsuleType() {
 		target = fromCtyPopulatePtr(target, true)
 		if target.Kind() != reflect.Ptr {
 			return path.NewErrorf("null value is not allowed")
